@@ -3,6 +3,10 @@ COMMON_NOTE = ("Trusted: Lean 4.33 kernel (axioms propext, Classical.choice, Quo
                "the gofacts translator, the mharness/mdriver correspondence harness. The hand-written model is tied to the code "
                "only by the correspondence run; what is modelled vs. covered by correspondence only is listed in the evidence file and DESIGN.md. ")
 CLAIMED = {
+ "C12": dict(
+   text="Lean 4 theorems for every record / record list over a model of the Mlrmap list surgery and the restructuring verbs: cut -f / cut -x -f are complementary order-preserving parts, rename a,a = id, rename a,b ; rename b,a = id for new b, rename leaves bystanders' values alone, unsparsify is rectangular over the first-seen union of names, sort-within-records permutes, fill-empty/sparsify touch only what they name. Models tied to the real transformers in-process (model = implementation on every explored stream).",
+   note="nest, reshape, flatten/unflatten, json-stringify/json-parse, sec2gmt, case, unspace, sub/gsub/ssub and all regex modes are not modelled yet (covered by other properties' checks or not at all; see evidence).",
+   technique="Lean 4 proof (list lemmas, induction) + in-process differential correspondence", design="§4 C12"),
  "C11": dict(
    text="Lean 4 theorems for every input list: each selecting verb, modelled as the state machine its Transform method implements, equals a stateless list specification (head = take / first k per group, tail -n +k, decimate, tac = reverse and tac;tac = id, group-by and group-like = first-appearance groups in input order), outputs are sublists / members of the input, |head k| + |tail +(k+1)| = number of keyed records, nothing = []. Machines tied to the real transformers in-process on seeded streams (model = implementation = spec on every case); filter/grep/sample/bootstrap/shuffle checked by partition / permutation / membership laws on the implementation.",
    note="head -n -k, tail -n k, uniq -a, cat -n -g, skip-trivial-records and having-fields have machines tied by correspondence but no theorem yet; filter/grep depend on the DSL/regexp and are not modelled here.",
